@@ -235,7 +235,9 @@ theorem C04_redis_exactly_once (cs : List RCmd) (h : ∀ c ∈ cs, c.ok)
   rw [this]
   have hn : redis.next false [] = none := next_nil_none redis redis_progress false
   rw [run_none redis false [] hn]
-  simp [redis, redisFinish]
+  have ht : redisTail 1 [] = [] := by
+    simp [redisTail, rItemE, redisLevels, scanLineE, scanLine, bindP, line, lineAux]
+  simp [redis, redisFinish, ht]
 
 example : natDigits 0 = [48] ∧ natDigits 1024 = [49, 48, 50, 52] := by decide
 
